@@ -958,7 +958,7 @@ func emit(a ex.Args, sites []site, vars []pkgVar, writes []write) {
 	})
 	var pb strings.Builder
 	pb.WriteString("import Model.Sites\n")
-	pb.WriteString("/-! Every package-level variable of the anchored packages that is written outside `init`\n(assignment, element / field write, ++/--, address taken, pointer-receiver method call), with the\nset of kinds of writes. Where it is written is in comments only. -/\n")
+	pb.WriteString("/-! Every package-level variable of the anchored packages that is written outside `init`\n(assignment, element or field write, increment or decrement, address taken, pointer-receiver method call), with the\nset of kinds of writes. Where it is written is in comments only. -/\n")
 	pb.WriteString("namespace Generated.C20PkgState\nopen Model.Sites\n\n")
 	pb.WriteString("def cells : List StateCell := [\n")
 	for i, k := range keys {
